@@ -6,8 +6,10 @@ import (
 	"fmt"
 	"net"
 	"os"
+	"os/exec"
 	"sort"
 	"strings"
+	"syscall"
 	"testing"
 
 	"pgregory.net/rapid"
@@ -18,6 +20,16 @@ import (
 )
 
 func TestMain(m *testing.M) {
+	// C14 opens and probes real host ports: every test process moves into a private network namespace first, so that
+	// parallel shards, other checks and unrelated processes of the machine cannot take or hold a port in between
+	// (wildcard binds need no configured interface). Without namespace support the process stays where it is.
+	if os.Getenv("VERIF_IN_NETNS") == "" {
+		if path, err := exec.LookPath("unshare"); err == nil && exec.Command(path, "-n", "true").Run() == nil {
+			env := append(os.Environ(), "VERIF_IN_NETNS=1")
+			_ = syscall.Exec(path, append([]string{"unshare", "-n"}, os.Args...), env)
+		}
+		os.Setenv("VERIF_IN_NETNS", "0")
+	}
 	vcore.QuietKlog()
 	os.Setenv("MY_NODE_NAME", "node-local")
 	os.Exit(m.Run())
@@ -237,6 +249,7 @@ func nonHostport(tb *nf.Table) string {
 }
 
 func checkC14(c c14Case, r *vcore.Rec) *vcore.Failure {
+	r.ClassIf(os.Getenv("VERIF_IN_NETNS") == "1", "private_netns")
 	nExplicit := 0
 	for _, p := range append(append([]pmPod{}, c.Pods...), c.Others...) {
 		for _, pt := range p.Ports {
